@@ -25,7 +25,10 @@ def run(chk):
     chk.rule(RG, "after `_grab_state()` (which resets the emitter's one-shot instruction state) no path reads that state through the emitter "
                  "again (inst_options(), extra_reg(), inline_comment(), _inst_options, _extra_reg, _inline_comment): nodes are built from the "
                  "grabbed copy")
-    nb = ng = 0
+    RS = "R-STATE-GRABBED-BEFORE-EXIT"
+    chk.rule(RS, "a Compiler function that takes the one-shot instruction state with _grab_state() does so before every return: a failing exit "
+                 "that leaves earlier keeps the state armed (\"a failed call clears the one-shot instruction state\")")
+    nb = ng = ns = 0
     for unit, rex in UNITS:
         f = chk.facts(unit, funcs=rex)
         for fn in cfg.load_functions(f):
@@ -83,8 +86,16 @@ def run(chk):
                 for g_ in grabs:
                     ng += 1
                     chk.ob(RG, "%s|grab@%d" % (short, fn.line_of(g_) - fn.line), True, loc=fn.loc(g_))
+                # ... and the grab (which is also the reset of the one-shot state) comes before every exit, failing ones included
+                for b, idx, r in fn.return_sites():
+                    st = m2.before(r) or frozenset()
+                    chk.ob(RS, "%s|return@%d" % (short, fn.line_of(r) - fn.line), ("grabbed",) in st, loc=fn.loc(r),
+                           detail="%s can return (`%s`) before _grab_state() ran: the pending options / extra register / inline comment stay armed "
+                                  "and are applied to the next instruction" % (short, " ".join(fn.text(r).split())[:50]), key="grabfirst|%s" % short)
+                    ns += 1
     chk.floor(RB + ":success-returns", nb, 2)
     chk.floor(RG + ":grabs", ng, 3)
+    chk.floor(RS + ":returns", ns, 6)
 
 
 def run_bind_last(chk):
